@@ -283,6 +283,8 @@ func deepSelfTest(cfg world.InstCfg) error {
 	return nil
 }
 
+var deepSelfTestNoted bool
+
 // DeepCount is the number of deep-probe indexes: shape x configuration x reader.
 func DeepCount() int { return 4 * len(deepList) }
 
@@ -330,8 +332,19 @@ func (s *StoreSim) deepCase(tn, shape, mode string, size, maxStackMB int, cfg wo
 	if ti == nil || !world.ShapeOK(ti, cfg) {
 		return nil, nil
 	}
-	if err := deepSelfTest(cfg); err != nil {
-		panic(HarnessError{err.Error()})
+	if strings.HasPrefix(shape, "nested-") {
+		// the hand-built nested records are checked against what this tree's own codec
+		// writes and reads. If they disagree the encoder or decoder of this tree is
+		// broken in a way that is not this probe's business (another property's check
+		// reports it): the nested shapes are left out, the flat ones still run.
+		if err := deepSelfTest(cfg); err != nil {
+			if !deepSelfTestNoted {
+				deepSelfTestNoted = true
+				fmt.Fprintln(os.Stderr, "note:", err.Error(), "- nested deep-probe shapes skipped")
+			}
+			s.St.ByFault["deep_nested_shapes_skipped_selftest"]++
+			return nil, nil
+		}
 	}
 	input, levels, what, ok := deepInput(ti.T, shape, size)
 	if !ok {
